@@ -18,7 +18,7 @@ atomman or numericalunits sources.
   plain floats (lookup = a name->float mapping) or over ``Q`` (lookup = ``si``).
 * ``admissible_choices()``: every subset of {length, mass, time, energy, charge}
   of size 1-4 that does not contain {length, mass, time, energy}.
-* ``STYLE_DIMS``: (L, M, T) of the mechanical quantities of a LAMMPS unit style.
+* ``STYLE_DIMS``: (L, M, T, Q, Theta) of the quantities a LAMMPS unit-style table lists.
 """
 from __future__ import annotations
 
@@ -333,29 +333,39 @@ def admissible_choices():
 
 
 # ---------------------------------------------------------------------------
-# LAMMPS unit styles: (L, M, T) of each mechanical quantity (all have Q = Theta = 0)
+# LAMMPS unit styles: (L, M, T, Q, Theta) of each tabulated quantity
 STYLES = ('lj', 'real', 'metal', 'si', 'cgs', 'electron', 'micro', 'nano')
 STYLE_DIMS = {
-    'mass': (0, 1, 0),
-    'length': (1, 0, 0),
-    'time': (0, 0, 1),
-    'energy': (2, 1, -2),
-    'velocity': (1, 0, -1),
-    'force': (1, 1, -2),
-    'torque': (2, 1, -2),
-    'pressure': (-1, 1, -2),
-    'dynamic viscosity': (-1, 1, -1),
-    'density': (-3, 1, 0),
-    'ang-mom': (2, 1, -1),
-    'ang-vel': (0, 0, -1),
+    # mechanical quantities (the ones the property statement is about)
+    'mass': (0, 1, 0, 0, 0),
+    'length': (1, 0, 0, 0, 0),
+    'time': (0, 0, 1, 0, 0),
+    'energy': (2, 1, -2, 0, 0),
+    'velocity': (1, 0, -1, 0, 0),
+    'force': (1, 1, -2, 0, 0),
+    'torque': (2, 1, -2, 0, 0),
+    'pressure': (-1, 1, -2, 0, 0),
+    'dynamic viscosity': (-1, 1, -1, 0, 0),
+    'density': (-3, 1, 0, 0, 0),
+    'ang-mom': (2, 1, -1, 0, 0),
+    'ang-vel': (0, 0, -1, 0, 0),
+    'volume': (3, 0, 0, 0, 0),
+    # thermal / electrical quantities (checked in addition)
+    'temperature': (0, 0, 0, 0, 1),
+    'charge': (0, 0, 0, 1, 0),
+    'dipole': (1, 0, 0, 1, 0),
+    'electric field': (1, 1, -2, -1, 0),          # V/m = J/(C m)
 }
-# quantities every non-lj style must list (the manual lists no viscosity/density for 'electron')
+STYLE_MECHANICAL = ('mass', 'length', 'time', 'energy', 'velocity', 'force', 'torque', 'pressure',
+                    'dynamic viscosity', 'density', 'ang-mom', 'ang-vel', 'volume')
+# quantities every non-lj style must list (the manual lists no viscosity/density for 'electron'; 'volume' was added
+# to the tables later and is judged only where present)
 STYLE_REQUIRED = ('mass', 'length', 'time', 'energy', 'velocity', 'force', 'torque', 'pressure', 'ang-mom', 'ang-vel')
 
 
 def log_ratio_exponents(v_ref, v_scaled, factors):
     """Exponent p_i such that v_scaled_i / v_ref = factor_i ^ p_i, one rescaled
-    configuration per base unit."""
+    configuration per base unit (metre, kilogram, second, coulomb)."""
     return tuple(math.log(vs / v_ref) / math.log(f) for vs, f in zip(v_scaled, factors))
 
 
